@@ -31,7 +31,8 @@ CASE_TIMEOUT_S = 900
 STUBS = []
 PROBES = ['eviction', 'absent_key_lookup', 'absent_then_evict', 'idx_path', 'raw_path', 'rewrite',
           'cache_size_1', 'minus_strand_tx', 'sec_tx', 'demo_multi_isoform', 'invalid_protein_as_noncoding',
-          'unversioned_lookup', 'non_ascii_gtf', 'corpus_real_reference', 'ensembl_dialect', 'gencode_extras']
+          'unversioned_lookup', 'non_ascii_gtf', 'corpus_real_reference', 'ensembl_dialect', 'gencode_extras',
+          'recheck_protein_coding']
 RULE = ('case = generated annotation (6-14 genes, both strands, Sec, NF tags) or the multi-isoform demo GTF; '
         'history = Hypothesis rule sequence (<=40 steps): lookups of present/absent keys in both pointer '
         'dicts, contains/len/iter, coordinate and sequence API calls, unversioned gene lookup, write->reparse, '
@@ -40,7 +41,8 @@ RULE = ('case = generated annotation (6-14 genes, both strands, Sec, NF tags) or
         '#evictions, #absent lookups) over executed histories')
 ASSUMPTIONS = [
     'reference model = GenomicAnnotation.dump_gtf of the same GTF through the compat layer GtfIO.parse',
-    'check_protein_coding is applied once at construction (as load_references does), not between accesses',
+    'check_protein_coding is applied at construction (as load_references does) and re-applied between accesses only '
+    'with the same proteome and flag',
     'generated annotations never contain abutting exons; the demo GTF is used for store equivalence only',
 ]
 DEMO = Path(__file__).resolve().parent.parent.parent / 'corpus' / 'demo'
@@ -450,6 +452,14 @@ class Sim:
             if sorted(exp) != got:
                 raise Violation('coord-sec', f'coord-sec:strand{strand}', {'tx': tx, 'expected': exp, 'got': got})
 
+    def op_recheck(self):
+        """check_protein_coding applied again with the same proteome and flag (idempotent by definition): the
+        store must go on serving the same models."""
+        _, _, _, flag, _ = self.cfg
+        self.disk.check_protein_coding(self.ctx.proteome(), flag)
+        self.mem.check_protein_coding(self.ctx.proteome(), flag)
+        self.stats['recheck'] = self.stats.get('recheck', 0) + 1
+
     def op_rewrite(self, via_idx):
         ctx = self.ctx
         path = ctx.dir / f'rewritten{ctx.gen}.gtf'
@@ -566,6 +576,10 @@ def make_machine(ctx, trace_box, stats_box, sources, log=None):
         @rule(i=idx)
         def invariants(self, i):
             self.do(('invariants', i))
+
+        @rule()
+        def recheck(self):
+            self.do(('recheck',))
 
         @rule(via_idx=st.booleans())
         def rewrite(self, via_idx):
@@ -777,7 +791,7 @@ def run_case(seed, task, tier):
                                   'absent': s['absent']})
         for k, p in (('evictions', 'eviction'), ('absent', 'absent_key_lookup'),
                      ('absent_then_evict', 'absent_then_evict'), ('rewrite', 'rewrite'), ('minus', 'minus_strand_tx'),
-                     ('sec', 'sec_tx'), ('unversioned', 'unversioned_lookup')):
+                     ('sec', 'sec_tx'), ('unversioned', 'unversioned_lookup'), ('recheck', 'recheck_protein_coding')):
             if s.get(k):
                 probes[p] = probes.get(p, 0) + 1
         probes['idx_path' if cfg[2] else 'raw_path'] = probes.get('idx_path' if cfg[2] else 'raw_path', 0) + 1
